@@ -1,7 +1,20 @@
 (* C05 runner: the self-contained models (statistics, rank lists, target loop) on a decoded case *)
 From Coq Require Import List Arith ZArith QArith Bool.
-From Gst Require Import lib.Sx lib.QAux C05.Reindex C05.Model C05.Spec.
+From Gst Require Import lib.Sx lib.QAux lib.LinAlgQ C05.Reindex C05.Model C05.Spec.
+From Gst Require C01.Model C01.Run C05.Spec_krige.
 Import ListNotations.
+
+(* the reduced kriging case, re-encoded (rationals as (num den)) *)
+Definition ofMat (M : mat) : sx := ofList (ofList ofQ) M.
+Definition ofKSample (s : C01.Model.sample) : sx :=
+  L [ofList ofOQ (C01.Model.s_coord s); ofList ofOQ (C01.Model.s_z s); ofList ofOQ (C01.Model.s_verr s); ofList ofOQ (C01.Model.s_fext s)].
+Definition ofKCase (k : C01.Model.kcase) : sx :=
+  L [ofList ofKSample (C01.Model.k_samples k); ofList (ofList ofMat) (C01.Model.k_clhs k); ofList (ofList ofMat) (C01.Model.k_crhs k)].
+Definition ofKrige (k : C01.Model.kcase) : sx :=
+  match C01.Model.krige k with
+  | None => L [I 0%Z]
+  | Some o => L [I 1%Z; ofList ofNat (C01.Model.o_active o); ofList ofQ (C01.Model.o_estim o); ofList ofQ (C01.Model.o_var o); ofMat (C01.Model.o_wgt o)]
+  end.
 
 Definition asRow (s : sx) : option row :=
   match s with
@@ -57,6 +70,14 @@ Definition run (c : sx) : sx :=
       | Some a, Some b, Some e, Some ts =>
           ofList (fun t => L [ofB (t_active t); ofList ofOQ (t_cells t)]) (run_targets a b (fun it => nth it e []) ts)
       | _, _, _, _ => sx_error 4
+      end
+  | L [I 5%Z; kc] =>
+      match C01.Run.asCase kc with
+      | Some k =>
+          let k' := C05.Spec_krige.kreduce k in
+          L [ofList ofNat (C05.Spec_krige.kkept k); ofKCase k'; ofKrige k; ofKrige k';
+             ofList ofNat (map (C05.Spec_krige.eqren k) (C01.Model.active k'))]
+      | None => sx_error 5
       end
   | _ => sx_error 0
   end.
